@@ -72,7 +72,7 @@ SIZES = [1, 8, 16, 32, 64]
 
 
 def plan(prop, tier, seed):
-    n, cases = (32, 150) if tier == "quick" else (160, 400)
+    n, cases = (32, 200) if tier == "quick" else (160, 400)
     return [{"kind": "random", "seed": run_seed(seed, prop, tier, i), "cases": cases, "want_sample": i < 2} for i in range(n)]
 
 
@@ -890,6 +890,14 @@ class Gen(object):
         pub = self.newid() if r.random() < 0.55 else None
         if k == "bin":
             sym = r.choice(BIN)
+            if r.random() < 0.2:
+                # sign-sensitive operators meet shared constants more often
+                sym = r.choice(["//", ">>", "<", "<=", ">", ">="])
+                c0 = self.pick(r, case, None, lambda it: it.e._is_cst)
+                if c0 is not None and r.random() < 0.6:
+                    a = c0
+                    sa = case.items[a].size
+                    op["a"] = a
             if sym in ("<<", ">>", "//"):
                 b = self.pick(r, case, sa, lambda it: it.e._is_cst and it.e.v < 2 * sa) or self.pick(r, case, sa, lambda it: it.e._is_reg and str(it.e).startswith("s"))
             else:
